@@ -30,7 +30,8 @@ CONSTANTS Acct,        \* holders
           AllAuth,     \* TRUE: every subset of the parties authorizes; FALSE: principal alone / everybody else
           Kinds,       \* entry points exercised
           Emit,        \* print REPLAY lines
-          EmitMod      \* ... for one transition in EmitMod (pseudo-hash of the history), 1 = all
+          EmitMod,     \* ... for one transition in EmitMod (pseudo-hash of the history), 1 = all
+          EmitLast     \* {} or: emit only histories whose last call is one of these entry points and succeeds
 
 VARIABLES st, g, viol, hist, stuck
 
@@ -220,7 +221,8 @@ OpCode(o) == KindIdx(o.op) + 17 * NameIdx(o.from) + 89 * NameIdx(o.to) + 449 * N
              + 2251 * (o.amt + 1) + (IF o.flag THEN 7919 ELSE 0) + 104729 * Cardinality(o.auth)
 RECURSIVE HashFrom(_, _, _)
 HashFrom(h, i, acc) == IF i > Len(h) THEN acc ELSE HashFrom(h, i + 1, (acc * 31 + OpCode(h[i])) % 1000003)
-Selected(h) == EmitMod = 1 \/ HashFrom(h, 1, 7) % EmitMod = 0
+Selected(h) == /\ EmitMod = 1 \/ HashFrom(h, 1, 7) % EmitMod = 0
+               /\ EmitLast = {} \/ (h[Len(h)].op \in EmitLast /\ h[Len(h)].exp = "ok")
 
 EmitReplay == (Emit /\ Selected(hist')) => PrintT(<<"REPLAY", ToJson(hist')>>)
 
